@@ -132,6 +132,86 @@ def sampling (toks : List String) : Option String :=
     | none => pure "reject"
   | _ => none
 
+/-! Search for messages whose signing run sits on a rejection bound of the loop of Algorithm 7 — only a SEARCH aid:
+    the harness signs the found message with the real code and compares the bytes with `sign` (the untouched
+    reference). `signTrace` repeats the loop body of `signCore` with the reference's functions and records, per
+    attempt, the four quantities the loop compares: ‖z‖∞, ‖r0‖∞, ‖ct0‖∞ and the number of hints. -/
+structure Attempt where
+  zN : Nat
+  r0N : Nat
+  ct0N : Nat
+  ones : Nat
+  deriving Inhabited
+
+def Attempt.passZ (p : Params) (a : Attempt) : Bool := a.zN < p.gamma1 - p.beta
+def Attempt.passR (p : Params) (a : Attempt) : Bool := a.r0N < p.gamma2 - p.beta
+def Attempt.passC (p : Params) (a : Attempt) : Bool := a.ct0N < p.gamma2
+def Attempt.passH (p : Params) (a : Attempt) : Bool := a.ones ≤ p.omega
+def Attempt.accepted (p : Params) (a : Attempt) : Bool := a.passZ p && a.passR p && a.passC p && a.passH p
+
+/-- the attempts of the signing loop up to and including the first accepted one -/
+def signTrace (p : Params) (sk : SkParts) (mu rnd : ByteArray) (fuel : Nat := 1000) : Array Attempt := Id.run do
+  let s1h := vecNTT sk.s1
+  let s2h := vecNTT sk.s2
+  let t0h := vecNTT sk.t0
+  let A := expandA p sk.rho
+  let rho'' := H (sk.key ++ rnd ++ mu) 64
+  let mut kappa := 0
+  let mut tr : Array Attempt := #[]
+  for _ in [0:fuel] do
+    let y := expandMask p rho'' kappa
+    let w := vecNTTInv (matVecNTT A (vecNTT y))
+    let w1 := w.map fun wi => wi.map (highBits p.gamma2)
+    let ctilde := H (mu ++ w1Encode p w1) p.ctildeSize
+    let c := sampleInBall p.tau ctilde
+    let ch := ntt c
+    let cs1 := vecNTTInv (scalarVecNTT ch s1h)
+    let cs2 := vecNTTInv (scalarVecNTT ch s2h)
+    let z := vecAdd y cs1
+    let wcs2 := vecSub w cs2
+    let r0 := wcs2.map fun wi => wi.map fun r => ofInt (lowBits p.gamma2 r)
+    let ct0 := vecNTTInv (scalarVecNTT ch t0h)
+    let r := vecAdd wcs2 ct0
+    let h : Array Poly := Array.ofFn (n := p.k) fun i =>
+      Array.ofFn (n := 256) fun j =>
+        if makeHint p.gamma2 (negq ct0[i.val]![j.val]!) r[i.val]![j.val]! then 1 else 0
+    let a : Attempt := { zN := infNormVec z, r0N := infNormVec r0, ct0N := infNormVec ct0, ones := countOnes h }
+    tr := tr.push a
+    if a.accepted p then return tr
+    kappa := kappa + p.l
+  return tr
+
+/-- does the attempt sit on the named edge while every OTHER comparison passes?  `…-accept`: the largest value
+    the comparison lets through (the attempt is the accepted one); `…-reject`: the smallest value it refuses. -/
+def onEdge (p : Params) (kind : String) (a : Attempt) : Bool :=
+  match kind with
+  | "z-accept" => a.zN + 1 == p.gamma1 - p.beta && a.passR p && a.passC p && a.passH p
+  | "z-reject" => a.zN == p.gamma1 - p.beta && a.passR p && a.passC p && a.passH p
+  | "r0-accept" => a.r0N + 1 == p.gamma2 - p.beta && a.passZ p && a.passC p && a.passH p
+  | "r0-reject" => a.r0N == p.gamma2 - p.beta && a.passZ p && a.passC p && a.passH p
+  | "ct0-accept" => a.ct0N + 1 == p.gamma2 && a.passZ p && a.passR p && a.passH p
+  | "ct0-reject" => a.ct0N == p.gamma2 && a.passZ p && a.passR p && a.passH p
+  | "h-accept" => a.ones == p.omega && a.passZ p && a.passR p && a.passC p
+  | "h-reject" => a.ones == p.omega + 1 && a.passZ p && a.passR p && a.passC p
+  | _ => false
+
+def decimalBytes (n : Nat) : ByteArray := (toString n).toUTF8
+
+/-- `signscan set sk prefix from count kind`: the first i in [from, from+count) such that deterministic signing
+    (rnd = 0³²) of M′ = 00 00 ‖ prefix ‖ decimal(i) has an attempt on the edge `kind` → `ok i attempt-index
+    attempts`, else `none`. -/
+def signScan (p : Params) (sk : ByteArray) (pre : ByteArray) (fro count : Nat) (kind : String) : String :=
+  match skDecode p sk with
+  | none => "err"
+  | some parts => Id.run do
+    let rnd : ByteArray := ⟨Array.replicate 32 0⟩
+    for i in [fro:fro + count] do
+      let mPrime := integerToBytes 0 2 ++ pre ++ decimalBytes i
+      let tr := signTrace p parts (H (parts.tr ++ mPrime) 64) rnd
+      for j in [0:tr.size] do
+        if onEdge p kind tr[j]! then return s!"ok {i} {j + 1} {tr.size}"
+    return "none"
+
 def handle (toks : List String) : Option String :=
   match toks with
   | "s" :: rest => scalar rest
@@ -155,6 +235,8 @@ def handle (toks : List String) : Option String :=
   | ["mu", set, pk, m] => do pure (hx (computeMu (← params? set) (ba (← bytesOfTok? pk)) (ba (← bytesOfTok? m))))
   | ["craft", set, sk, m, rnd, kind] => do
     pure (okBA (craft (← params? set) (ba (← bytesOfTok? sk)) (ba (← bytesOfTok? m)) (ba (← bytesOfTok? rnd)) kind))
+  | ["signscan", set, sk, pre, fro, count, kind] => do
+    pure (signScan (← params? set) (ba (← bytesOfTok? sk)) (ba (← bytesOfTok? pre)) (← fro.toNat?) (← count.toNat?) kind)
   | _ => none
 
 end Driver.Ml
